@@ -19,6 +19,7 @@ MODEL_FIELDS = {
     "genvalidate": ["res"],
     "geninit": ["res", "st"],
     "withoutmw": [],
+    "withoutmwc": [],
     "pure": ["_"],
     "deposit": ["_"],
     "env": ["_"],
